@@ -16,6 +16,30 @@ COMMON_TRUST = [
 ]
 
 PROPS = {
+    "C20": {
+        "level": "proof",
+        "level_prefix": "Partial proof -- contracts discharged without bound on the mechanisms named below, not the whole statement (what is left out is listed): ",
+        "units": ["clientcache"],
+        "kani": [],
+        "explanation": "The ageing and never-stale clauses, on the functions that implement them (net/client/cache.rs, real text). validity(): how long an upstream response may be served is never more than the configured "
+                       "maximum, the bound configured for its kind (NXDOMAIN, other error codes, transport failures; a truncated response is not kept unless configured), nor the TTL of any record in its answer, "
+                       "authority or additional section (OPT aside) -- three loops over the real section iterators' model, for messages of any size. A cache entry (Value::new, new_from_value_and_response) keeps that "
+                       "duration as valid_for (representation invariant inv(): valid_for is zero or no TTL in the entry is shorter), and a response derived from a cached one keeps the creation time of the original. "
+                       "Value::get_response serves nothing once more than valid_for has passed; otherwise it hands the stored response to decrement_ttl with the whole seconds spent in the cache, which by the invariant "
+                       "is at most every TTL -- so the TTL subtraction, which panics on underflow, cannot (the cross-function invariant the design phase could not express: it is the precondition can_age of decrement_ttl, "
+                       "discharged at the call in get_response from inv()). decrement_ttl (four loops): the message is rebuilt with the same header, the same records in the same sections and order, every TTL reduced "
+                       "by exactly the amount (never increased), OPT records untouched (predicate aged). AdDo::{new, ad, dnssec_ok}: which flavour of cached answer a query may see.",
+        "not_covered": "That the entry found belongs to the same question and compatible flags (Key, the moka cache, cache_lookup_rd_do_ad / _do_ad / _ad: async code over the cache; remove_dnssec: builder with closures), "
+                       "the clock (Instant::elapsed is arbitrary here: any time may have passed), classify_no_error, the NODATA / delegation bounds (they depend on its classification: the contract states them for "
+                       "NXDOMAIN and other error codes only), get_response_impl (the request state machine). Assumed and said so in the unit: pushing a record into the rebuilt message succeeds -- that re-encoding with "
+                       "StaticCompressor cannot push a message the upstream sent past 65 535 octets and trip expect(\"push failed\") is NOT proved (an observation, see DESIGN.md); the rebuilt message reads back as what "
+                       "was pushed (C02).",
+        "assumptions": [
+            "core::time::Duration is a number of nanoseconds below 2^64; tokio/std Instant::elapsed may return anything",
+            "Message, its section iterators (C01: unit sections has the real ones), the message builder stages and AllRecordData are prelude models; into_record::<AllRecordData>() yields Some for every record type",
+            "MessageBuilder push succeeds (not proved: size after re-compression); the built message parses back to what was pushed (C02)",
+        ],
+    },
     "C17": {
         "level": "proof",
         "units": ["serial"],
